@@ -94,8 +94,20 @@ def case_to_coq(I, c):
     ttl = coq_list([I.s(it[t]["ttl"] if t in it else "<initial>") for t in TABLES])
     pol = coq_list([I.s(it[t]["policy"] if t in it else "<initial>") for t in TABLES])
     init = coq_list(["(%s, %s)" % (coq_Z(x["fp"]), I.s(x["value"])) for x in (c.get("init") or [])])
-    return "{| c_id := %d; c_init := %s; c_init_ttl := %s; c_init_policy := %s; c_runs := %s |}" % (
-        c["id"], init, ttl, pol, coq_list([run_to_coq(I, r) for r in c["runs"]]))
+    conc = "None"
+    cc = c.get("conc")
+    if cc is not None:
+        tb = {t["name"]: t for t in cc["state"]["tables"]}
+        log = coq_list(["(%d%%nat, {| o_q := %s; o_sql := %s; o_args := %s; o_ok := %s |})" % (
+            e["inst"], b(e["call"]["q"]), I.s(e["call"]["sql"]), coq_list([arg_to_coq(I, a) for a in e["call"]["args"]]),
+            b(e["call"]["ok"])) for e in cc["log"]])
+        conc = ("(Some {| cc_cfgs := %s; cc_eff := %s; cc_log := %s; cc_errs := %s; cc_ttl := %s; cc_policy := %s; cc_settings := %s |})"
+                % (coq_list([cfg_to_coq(I, x) for x in cc["cfgs"]]), coq_list(["%d%%nat" % k for k in cc["eff"]]), log,
+                   coq_list([b(x) for x in cc["errs"]]), coq_list([I.s(tb[t]["ttl"]) for t in TABLES]),
+                   coq_list([I.s(tb[t]["policy"]) for t in TABLES]),
+                   coq_list(["(%s, %s)" % (coq_Z(x["fp"]), I.s(x["value"])) for x in cc["state"]["settings"]])))
+    return "{| c_id := %d; c_init := %s; c_init_ttl := %s; c_init_policy := %s; c_runs := %s; c_conc := %s |}" % (
+        c["id"], init, ttl, pol, coq_list([run_to_coq(I, r) for r in c["runs"]]), conc)
 
 
 def eval_cases(ck, name, cases):
@@ -122,7 +134,9 @@ def eval_cases(ck, name, cases):
 
 
 def case_size(c):
-    return (len(c["runs"]), sum(len(r["log"]) for r in c["runs"]), sum(len(r["cfg"]["days"]) for r in c["runs"]))
+    cc = c.get("conc")
+    return (len(c["runs"]) + (len(cc["cfgs"]) if cc else 0), sum(len(r["log"]) for r in c["runs"]) + (len(cc["log"]) if cc else 0),
+            sum(len(r["cfg"]["days"]) for r in c["runs"]))
 
 
 def strip_run(r):
@@ -135,9 +149,12 @@ def strip_run(r):
 
 def strip_obs(c):
     """the input part of a case (what --cases needs)"""
-    return {"id": c["id"], "class": c.get("class", ""), "init": c.get("init") or [],
-            "init_tables": c.get("init_tables") or [],
-            "runs": [strip_run(r) for r in c["runs"]]}
+    out = {"id": c["id"], "class": c.get("class", ""), "init": c.get("init") or [],
+           "init_tables": c.get("init_tables") or [],
+           "runs": [strip_run(r) for r in c["runs"]]}
+    if c.get("conc") is not None:
+        out["conc"] = {"cfgs": c["conc"]["cfgs"], "sched": c["conc"]["sched"]}
+    return out
 
 
 def summarize(c):
@@ -147,6 +164,12 @@ def summarize(c):
                     "alters": sum(1 for o in r["log"] if o["sql"].startswith("ALTER")),
                     "log": [(o["sql"] if not o["sql"].startswith("SELECT") else "SELECT <setting>", o["args"], o["ok"]) for o in r["log"]],
                     "tables_after": r["state"]["tables"]})
+    cc = c.get("conc")
+    if cc is not None:
+        out.append({"concurrent_instances": cc["cfgs"], "schedule": cc["sched"], "granted": cc["eff"], "errs": cc["errs"],
+                    "log": [(e["inst"], e["call"]["sql"] if not e["call"]["sql"].startswith("SELECT") else "SELECT <setting>",
+                             e["call"]["args"]) for e in cc["log"]],
+                    "tables_after": cc["state"]["tables"], "settings_after": cc["state"]["settings"]})
     return out
 
 
@@ -165,7 +188,7 @@ def shrink(ck, c, pred):
         progressed = False
         cands = []
         for i in range(len(best["runs"])):
-            if len(best["runs"]) > 1:
+            if len(best["runs"]) > 1 or best.get("conc") is not None:
                 d = strip_obs(best)
                 del d["runs"][i]
                 cands.append(d)
@@ -177,6 +200,21 @@ def shrink(ck, c, pred):
                     if rr["cfg"] == r["cfg"] and j < len(rr["cfg"]["days"]):
                         rr["cfg"] = dict(rr["cfg"], days=[p for k, p in enumerate(rr["cfg"]["days"]) if k != j])
                 cands.append(d)
+        if best.get("conc") is not None:
+            cc = best["conc"]
+            # the granted sequence is the schedule that matters; try halves / dropping single entries from the end
+            eff = cc.get("eff") or cc["sched"]
+            for cut in (len(eff) // 2, len(eff) - 1):
+                if 0 <= cut < len(eff):
+                    d = strip_obs(best)
+                    d["conc"]["sched"] = eff[:cut]
+                    cands.append(d)
+            if len(cc["cfgs"]) > 2:
+                for k in range(len(cc["cfgs"])):
+                    d = strip_obs(best)
+                    d["conc"]["cfgs"] = [x for m, x in enumerate(cc["cfgs"]) if m != k]
+                    d["conc"]["sched"] = [x - (1 if x > k else 0) for x in eff if x != k]
+                    cands.append(d)
         for i, r in enumerate(best["runs"]):
             if r["fault"] is not None:
                 d = strip_obs(best)
@@ -322,6 +360,16 @@ def run_rotate(ck):
         for i, c in enumerate(cs):
             c["id"] = 1000000 + i
         cases += cs
+        # the witness of concurrent_different_configurations_diverge on the real code (an observation about a
+        # situation outside the property: instances with different configurations at the same time)
+        for c in cs:
+            if c.get("class") == "corpus:concurrent-different-configurations" and c.get("conc"):
+                st = c["conc"]["state"]
+                ttl = {t["name"]: t["ttl"] for t in st["tables"]}["metrics_15s"]
+                rec = [x["value"] for x in st["settings"] if x["fp"] == 471363531]
+                ck.extra["observation_concurrent_different_configurations"] = {
+                    "metrics_15s_ttl": ttl, "recorded": rec, "errors": c["conc"]["errs"],
+                    "diverged_as_the_theorem_says": bool(rec) and rec[0] != ttl and "toIntervalDay(60)" in ttl and "toIntervalDay(30)" in rec[0]}
     outp = os.path.join(ck.work, "rotate.jsonl")
     args = ["--seed", ck.seed, "--n", ck.n(1500, 12000), "--out", outp]
     if not ck.quick():
@@ -362,9 +410,10 @@ def run_rotate(ck):
         mism += m
         viol += v
     nruns = sum(len(c["runs"]) for c in ok_cases)
-    ck.obligation("correspondence: model Rotate.run = maintenance.Rotate on %d histories (%d runs): SQL text, arguments, error, state"
-                  % (len(ok_cases), nruns), not mism and not panics, "mismatching case ids: %s" % mism[:10])
-    ck.obligation("spec oracle (tier minimum, record after all ALTERs, converged, silent repeat) accepts every observed history",
+    nconc = sum(1 for c in ok_cases if c.get("conc") is not None)
+    ck.obligation("correspondence: model Rotate.run / rotate_all / port_ch_env / sched_run = maintenance.Rotate, RotateAll, portCHEnv, concurrent Rotate goroutines on %d histories (%d runs, %d concurrent groups): SQL text, arguments, error, state"
+                  % (len(ok_cases), nruns, nconc), not mism and not panics, "mismatching case ids: %s" % mism[:10])
+    ck.obligation("spec oracle (tier minimum, tiers/disks/days as configured, record after all ALTERs, converged, silent repeat, bad timeout or environment refused without a statement, concurrent instances converge) accepts every observed history",
                   not viol, "violating case ids: %s" % viol[:10])
     if viol:
         worst = min((byid[i] for i in viol), key=case_size)
@@ -396,8 +445,10 @@ def run_rotate(ck):
         cfgs = {json.dumps(r["cfg"], sort_keys=True) for r in c["runs"]}
         alters = sum(1 for r in c["runs"] for o in r["log"] if o["sql"].startswith("ALTER"))
         nfault += sum(1 for r in c["runs"] if r["err"])
-        if len(c["runs"]) >= 2 and alters >= 1:
-            distinct.add(json.dumps(strip_obs(c)["runs"], sort_keys=True))
+        if c.get("conc") is not None:
+            alters += sum(1 for e in c["conc"]["log"] if e["call"]["sql"].startswith("ALTER"))
+        if (len(c["runs"]) >= 2 or c.get("conc") is not None) and alters >= 1:
+            distinct.add(json.dumps(strip_obs(c), sort_keys=True))
     dur = {}
     for c in cases:
         for r in c["runs"]:
@@ -426,6 +477,10 @@ def run_rotate(ck):
                 if kv["k"] == "SAMPLES_DAYS":
                     glue["samples_days_texts"][kv["v"]] = glue["samples_days_texts"].get(kv["v"], 0) + 1
     glue["samples_days_texts"] = len(glue["samples_days_texts"])
+    concs = [c["conc"] for c in cases if c.get("conc") is not None]
+    conc = {"cases": len(concs), "instances": sum(len(x["cfgs"]) for x in concs), "granted_statements": sum(len(x["eff"]) for x in concs),
+            "same_configuration": sum(1 for x in concs if all(y == x["cfgs"][0] for y in x["cfgs"])),
+            "switches_between_instances": sum(sum(1 for a, bb in zip(x["eff"], x["eff"][1:]) if a != bb) for x in concs)}
     ck.coverage["evaluations"] += len(cases)
     ck.coverage["distinct_nontrivial"] += len(distinct)
     ck.coverage["rule"] += ("histories of 1..6 Rotate runs on one database: random configurations (0-3 tiers, durations 1 s .. 292 years incl. "
@@ -434,7 +489,7 @@ def run_rotate(ck):
                             "settings layouts; non-trivial = >= 2 runs and >= 1 ALTER; distinct by content. ")
     ck.extra["input_distribution"] = {"classes": hist, "runs": nruns, "runs_ended_by_fault": nfault,
                                       "logged_calls": sum(case_size(c)[1] for c in cases),
-                                      "tier_durations": dur, "glue": glue,
+                                      "tier_durations": dur, "glue": glue, "concurrent": conc,
                                       "with_storage_policy": sum(1 for c in cases for r in c["runs"] if r["cfg"]["policy"]),
                                       "clustered": sum(1 for c in cases for r in c["runs"] if r["cfg"]["cluster"])}
     ck.add_samples([{"class": c["class"], "runs": [{"cfg": r["cfg"], "fault": r["fault"], "err": r["err"], "calls": len(r["log"])}
